@@ -9,7 +9,8 @@ RULE = ("one-shot: full product key length {16,32} x key pattern x nonce x AAD l
         "the phase machine AAD -> (to_encryption|to_decryption) -> data -> finalize with letters add_data(l), encrypt/encrypt_mut/decrypt/"
         "decrypt_mut(l), fork; states merged on (phase, aad bytes, data bytes, observed tag-of-clone), run until the frontier is empty within the "
         "byte bounds, so every partition of AAD and data into alphabet pieces is covered; in every state the tag of a finalized clone must equal "
-        "the model tag of the bytes so far; non-trivial = some non-empty AAD or data; distinct = program text")
+        "the model tag of the bytes so far; non-trivial = some non-empty AAD or data; distinct = program text"
+        " Also: every plaintext length 0..=200 and every AAD length 0..=80 one-shot; component shards: the Poly1305 limb-steering / corner-state / crafted inputs of C05 and the counter-bit and seek shards of C03 (the AEAD's MAC key and block counter cannot be steered through the AEAD itself); the corpus again on the checked-arithmetic and native builds.")
 ASSUMPTIONS = ["python RFC 8439 AEAD model (validated on 2.8.2) over the ChaCha model of C03", "128-bit keys use Bernstein's 16-byte constants, as the statement requires",
                "content of key/nonce/AAD/plaintext from the pattern alphabet"]
 
